@@ -681,32 +681,28 @@ Section Major.
       + split; [cbn; tauto|]. intros b' [<-|[<-|[<-|[<-|[]]]]] Hne; try congruence; [apply S0|apply S1|apply S2]; lia.
       + exfalso. assert (votes skip ds fs k bA < votes skip ds fs k bN) by (apply S0; lia). lia.
     - intros [Hin Hs].
-      assert (HAC : bA <> bC) by discriminate. assert (HAG : bA <> bG) by discriminate.
-      assert (HAT : bA <> bT) by discriminate. assert (HCG : bC <> bG) by discriminate.
-      assert (HCT : bC <> bT) by discriminate. assert (HGT : bG <> bT) by discriminate.
-      pose proof (Hs bA) as SA. pose proof (Hs bC) as SC. pose proof (Hs bG) as SG. pose proof (Hs bT) as ST.
-      cbn [In] in SA, SC, SG, ST.
+      assert (In bA acgt /\ In bC acgt /\ In bG acgt /\ In bT acgt) as (IA & IC & IG & IT) by (cbn; tauto).
       destruct Hin as [<-|[<-|[<-|[<-|[]]]]].
-      + exists 0%nat. split; [reflexivity|]. split; [lia|]. intros j Hj Hne. rewrite !HV by lia.
+      + assert (LC := Hs bC IC ltac:(discriminate)). assert (LG := Hs bG IG ltac:(discriminate)).
+        assert (LT := Hs bT IT ltac:(discriminate)). clear Hs IA IC IG IT.
+        exists 0%nat. split; [reflexivity|]. split; [lia|]. intros j Hj Hne. rewrite !HV by lia.
         assert (Hc : (j = 1 \/ j = 2 \/ j = 3 \/ j = 4)%nat) by lia.
-        destruct Hc as [->|[->|[->| ->]]]; cbn [index_base nth];
-          [apply SC|apply SG|apply ST|rewrite HN; assert (votes skip ds fs k bC < votes skip ds fs k bA) by (apply SC; [tauto|congruence]); lia];
-          try tauto; congruence.
-      + exists 1%nat. split; [reflexivity|]. split; [lia|]. intros j Hj Hne. rewrite !HV by lia.
+        destruct Hc as [->|[->|[->| ->]]]; cbn [index_base nth]; lia.
+      + assert (LA := Hs bA IA ltac:(discriminate)). assert (LG := Hs bG IG ltac:(discriminate)).
+        assert (LT := Hs bT IT ltac:(discriminate)). clear Hs IA IC IG IT.
+        exists 1%nat. split; [reflexivity|]. split; [lia|]. intros j Hj Hne. rewrite !HV by lia.
         assert (Hc : (j = 0 \/ j = 2 \/ j = 3 \/ j = 4)%nat) by lia.
-        destruct Hc as [->|[->|[->| ->]]]; cbn [index_base nth];
-          [apply SA|apply SG|apply ST|rewrite HN; assert (votes skip ds fs k bA < votes skip ds fs k bC) by (apply SA; [tauto|congruence]); lia];
-          try tauto; congruence.
-      + exists 2%nat. split; [reflexivity|]. split; [lia|]. intros j Hj Hne. rewrite !HV by lia.
+        destruct Hc as [->|[->|[->| ->]]]; cbn [index_base nth]; lia.
+      + assert (LA := Hs bA IA ltac:(discriminate)). assert (LC := Hs bC IC ltac:(discriminate)).
+        assert (LT := Hs bT IT ltac:(discriminate)). clear Hs IA IC IG IT.
+        exists 2%nat. split; [reflexivity|]. split; [lia|]. intros j Hj Hne. rewrite !HV by lia.
         assert (Hc : (j = 0 \/ j = 1 \/ j = 3 \/ j = 4)%nat) by lia.
-        destruct Hc as [->|[->|[->| ->]]]; cbn [index_base nth];
-          [apply SA|apply SC|apply ST|rewrite HN; assert (votes skip ds fs k bA < votes skip ds fs k bG) by (apply SA; [tauto|congruence]); lia];
-          try tauto; congruence.
-      + exists 3%nat. split; [reflexivity|]. split; [lia|]. intros j Hj Hne. rewrite !HV by lia.
+        destruct Hc as [->|[->|[->| ->]]]; cbn [index_base nth]; lia.
+      + assert (LA := Hs bA IA ltac:(discriminate)). assert (LC := Hs bC IC ltac:(discriminate)).
+        assert (LG := Hs bG IG ltac:(discriminate)). clear Hs IA IC IG IT.
+        exists 3%nat. split; [reflexivity|]. split; [lia|]. intros j Hj Hne. rewrite !HV by lia.
         assert (Hc : (j = 0 \/ j = 1 \/ j = 2 \/ j = 4)%nat) by lia.
-        destruct Hc as [->|[->|[->| ->]]]; cbn [index_base nth];
-          [apply SA|apply SC|apply SG|rewrite HN; assert (votes skip ds fs k bA < votes skip ds fs k bT) by (apply SA; [tauto|congruence]); lia];
-          try tauto; congruence.
+        destruct Hc as [->|[->|[->| ->]]]; cbn [index_base nth]; lia.
   Qed.
 
   Theorem majority_iff ds fs out k b : bases_ok fs -> mol_consensus skip ds fs = Ok out ->
@@ -1063,3 +1059,142 @@ Proof.
   - assert (0 <= q2) by (apply (Hnn b2 q2); right; left; reflexivity). rewrite pick1_l, pick1_r by lia. reflexivity.
   - reflexivity.
 Qed.
+
+(* ------------------------------------------------------------------ K. what a read contributes: its aligned triples inside the window *)
+Definition call_pos (c : Z * Z * Z) : Z := let '(p, _, _) := c in p.
+
+Lemma fold_dset_notin {A} (items : list (key * A)) k : ~ In k (map fst items) ->
+  forall d, dget k (fold_left (fun d kv => dset (fst kv) (snd kv) d) items d) = dget k d.
+Proof.
+  induction items as [|[k0 v0] items IH]; intros Hn d; [reflexivity|].
+  cbn [fold_left fst snd]. rewrite IH by (intros H; apply Hn; right; assumption).
+  rewrite dget_dset. destruct (key_eqb k k0) eqn:E; [|reflexivity].
+  apply key_eqb_eq in E. subst. exfalso. apply Hn. left. reflexivity.
+Qed.
+
+Lemma dict_of_in {A} (items : list (key * A)) k v : NoDup (map fst items) -> In (k, v) items ->
+  dget k (dict_of items) = Some v.
+Proof.
+  unfold dict_of. generalize (@nil (key * A)) as d.
+  induction items as [|[k0 v0] items IH]; intros d Hn Hin; [destruct Hin|].
+  cbn [map fst] in Hn. inversion Hn as [|? ? Hnot Hn']; subst. cbn [fold_left fst snd].
+  destruct Hin as [E|Hin].
+  - inversion E; subst. rewrite fold_dset_notin by assumption. rewrite dget_dset, key_eqb_refl. reflexivity.
+  - apply IH; assumption.
+Qed.
+
+Lemma NoDup_map_filter {A B} (f : A -> B) (g : A -> bool) l : NoDup (map f l) -> NoDup (map f (filter g l)).
+Proof.
+  induction l as [|x l IH]; intros H; [constructor|]. cbn [map] in H. inversion H as [|? ? Hn Hd]; subst.
+  cbn [filter]. destruct (g x); [|auto]. cbn [map]. constructor; [|auto].
+  intros Hin. apply Hn. apply in_map_iff in Hin. destruct Hin as (y & <- & Hy). apply filter_In in Hy.
+  apply in_map. tauto.
+Qed.
+
+Lemma read_items_keys w r :
+  map fst (read_items w r) =
+  map (fun p0 => (r_contig r, p0)) (map call_pos (filter (fun c : Z * Z * Z => let '(p0, _, _) := c in in_win w p0) (r_calls r))).
+Proof. unfold read_items. rewrite !map_map. apply map_ext. intros [[p0 b0] q0]. reflexivity. Qed.
+
+Theorem read_dict_get w r d c p b q : read_dict w (Some r) = Ok d -> NoDup (map call_pos (r_calls r)) ->
+  (dget (c, p) d = Some (b, q) <-> c = r_contig r /\ in_win w p = true /\ In (p, b, q) (r_calls r)).
+Proof.
+  cbn [read_dict]. destruct (r_md r); [|discriminate]. intros H Hn. inversion H; subst d. clear H. split.
+  - intros H. apply dict_of_get in H. unfold read_items in H. apply in_map_iff in H.
+    destruct H as ([[p' b'] q'] & E & Hin). inversion E; subst. apply filter_In in Hin. tauto.
+  - intros (-> & Hw & Hin). apply dict_of_in.
+    + rewrite read_items_keys. apply FinFun.Injective_map_NoDup; [intros x y Hxy; inversion Hxy; reflexivity|].
+      apply NoDup_map_filter. assumption.
+    + unfold read_items. apply in_map_iff. exists (p, b, q). split; [reflexivity|]. apply filter_In. tauto.
+Qed.
+
+(* ------------------------------------------------------------------ D16: /repo HEAD's skip rule drops R2-only fragments *)
+Definition ex_read (rev : bool) (b : Z) : option read :=
+  Some {| r_contig := 0; r_start := 20; r_end := 21; r_rev := rev; r_md := true; r_calls := [(20, b, 30)] |}.
+Definition ex_d16 : list frag := [[ex_read false bA; None]; [None; ex_read true bC]; [None; ex_read true bC]].
+
+Lemma head_refuted :
+  exists fs out, pre fs = true /\ mol_consensus skip_head false fs = Ok out /\
+                 majority skip_fixed false fs (0, 20) = Some bC /\ dget (0, 20) out = Some bA.
+Proof. exists ex_d16. eexists. vm_compute. repeat split. Qed.
+
+Lemma head_r2_only_no_call ds r k : frag_call skip_head ds [None; Some r] k = None.
+Proof. unfold frag_call, skip_head, has_R1, has_R2. cbn [nth_error]. rewrite orb_true_r. reflexivity. Qed.
+
+(* ------------------------------------------------------------------ wrappers in the shape of Props/C13.v *)
+Section Final.
+  Variable skip : bool -> frag -> bool.
+
+  Lemma majority_pre ds fs out k b : pre fs = true -> mol_consensus skip ds fs = Ok out ->
+    (dget k out = Some b <->
+     In b acgt /\ forall b', In b' acgt -> b' <> b -> votes skip ds fs k b' < votes skip ds fs k b).
+  Proof. intros Hp. apply (majority_iff skip ds fs out k b). apply pre_bases_ok. assumption. Qed.
+
+  Lemma total_pre ds fs : pre fs = true -> exists out, mol_consensus skip ds fs = Ok out.
+  Proof. intros Hp. apply consensus_total. apply pre_bases_ok. assumption. Qed.
+
+  Lemma table_is_votes ds fs t k j : pre fs = true -> mol_table skip ds fs [] = Ok t -> (j < 5)%nat ->
+    vnth j (tget k t) = votes skip ds fs k (index_base j) /\ vnth 4 (tget k t) = 0.
+  Proof.
+    intros Hp H Hj. destruct (pre_bases_ok _ Hp) as [Hok _].
+    rewrite !(mol_table_sum skip ds fs [] t H), tget_nil, !vnth_zeros, !V_votes by (assumption || lia).
+    split; [lia|]. cbn [index_base nth]. rewrite votes_N. reflexivity.
+  Qed.
+
+  Lemma outcome_iff ds fs :
+    (mol_consensus skip ds fs = IndexError <->
+     exists f, In f fs /\ skip ds f = false /\ frag_consensus ds f = IndexError) /\
+    mol_consensus skip ds fs <> ValueError.
+  Proof.
+    split.
+    - destruct (mol_consensus_outcome skip ds fs) as [[H1 H2]|[H1 [out H2]]]; rewrite H2; split; intros H; try discriminate; try reflexivity.
+      + apply existsb_exists in H1. destruct H1 as (f & Hin & Hr). exists f. split; [assumption|].
+        unfold raises in Hr. apply andb_true_iff in Hr. destruct Hr as [Hr1 Hr2]. apply negb_true_iff in Hr1.
+        split; [assumption|]. destruct (frag_consensus ds f); try discriminate. reflexivity.
+      + exfalso. destruct H as (f & Hin & Hs & Hf).
+        assert (Hr : existsb (raises skip ds) fs = true).
+        { apply existsb_exists. exists f. split; [assumption|]. unfold raises. rewrite Hs, Hf. reflexivity. }
+        congruence.
+    - destruct (mol_consensus_outcome skip ds fs) as [[_ H2]|[_ [out H2]]]; rewrite H2; discriminate.
+  Qed.
+
+  Lemma frag_index_error ds f : frag_consensus ds f = IndexError <-> (length f < 2)%nat.
+  Proof.
+    split.
+    - intros H. destruct f as [|r1 [|r2 f]]; cbn [length]; try lia. exfalso.
+      pose proof (two_slots_no_raise (fun _ _ => false) ds [r1; r2] eq_refl) as Hr.
+      unfold raises in Hr. cbn [negb andb] in Hr.
+      unfold frag_consensus in *. cbn [nth_error] in *.
+      destruct (window ds r1 r2) as [w| |]; try discriminate.
+      destruct (read_dict w r1) as [d1| |]; try discriminate.
+      destruct (read_dict w r2) as [d2| |]; discriminate.
+    - intros H. destruct f as [|r1 [|r2 f]]; cbn [length] in H; try lia; reflexivity.
+  Qed.
+End Final.
+
+Lemma skip_fixed_no_dove f : skip_fixed false f = false.
+Proof. reflexivity. Qed.
+Lemma skip_fixed_dove f : skip_fixed true f = negb (has_R1 f && has_R2 f).
+Proof. unfold skip_fixed. cbn [andb]. destruct (has_R1 f), (has_R2 f); reflexivity. Qed.
+
+(* non-vacuity: three fragments; position 20 has a 1:1 tie (A vs C; the third mate pair disagrees at equal
+   quality -> N, no vote), position 21 a 2:1 majority, position 22 only N calls *)
+Definition ex_rd (rev : bool) (calls : list (Z * Z * Z)) : option read :=
+  Some {| r_contig := 0; r_start := 20; r_end := 23; r_rev := rev; r_md := true; r_calls := calls |}.
+Definition ex_mol : list frag :=
+  [ [ex_rd false [(20, bA, 30); (21, bG, 30); (22, bN, 30)]; None];
+    [None; ex_rd true [(20, bC, 30); (21, bG, 20); (22, bN, 2)]];
+    [ex_rd false [(20, bA, 30); (21, bT, 37); (22, bN, 30)]; ex_rd true [(20, bC, 30); (21, bG, 30); (22, bA, 2)]] ].
+Lemma ex_mol_facts :
+  pre ex_mol = true /\ mol_consensus skip_fixed false ex_mol = Ok [((0, 21), bG)] /\
+  mol_consensus skip_fixed true ex_mol = Ok [((0, 21), bT)] /\
+  votes skip_fixed false ex_mol (0, 20) bA = 1 /\ votes skip_fixed false ex_mol (0, 20) bC = 1 /\
+  votes skip_fixed false ex_mol (0, 21) bG = 2 /\ votes skip_fixed false ex_mol (0, 21) bT = 1 /\
+  mol_consensus skip_fixed false (ex_mol ++ [[ex_rd false []]]) = IndexError.
+Proof. vm_compute. repeat split. Qed.
+
+Lemma pick2_hi_both b1 q1 b2 q2 : 0 <= q2 < q1 ->
+  pick_best [Some (b1, q1); Some (b2, q2)] = (b1, q1) /\ pick_best [Some (b2, q2); Some (b1, q1)] = (b1, q1).
+Proof. intros H. exact (conj (pick2_hi_l b1 q1 b2 q2 H) (pick2_hi_r b2 q2 b1 q1 H)). Qed.
+Lemma skip_rule f : skip_fixed false f = false /\ skip_fixed true f = negb (has_R1 f && has_R2 f).
+Proof. exact (conj (skip_fixed_no_dove f) (skip_fixed_dove f)). Qed.
